@@ -1027,7 +1027,7 @@ CORPUS: list[dict] = [
 def gen_cases(run: Run) -> list[dict]:
     rng = run.rng
     cases: list[dict] = []
-    n = run.scale(1, 12)
+    n = run.scale(4, 40)
     for _ in range(900 * n):
         cases.append({'kind': 'ESC', 's': gen_string(rng, allow_nonxml=rng.random() < 0.3, p_special=0.4),
                       'escaped': rng.random() < 0.1})
